@@ -102,6 +102,9 @@ func ZZ_ES() {
 	if prop == 9 {
 		nops = 7
 	}
+	if prop == 12 && zzrt.Param("X") == 1 {
+		nops = 4 // + unsubscribe of some other PID
+	}
 	for step := 0; step < K && !escaped && !storm; step++ {
 		op := zzrt.NondetIntn("op", nops)
 		switch op {
@@ -123,6 +126,14 @@ func ZZ_ES() {
 			guard(func() { e.Unsubscribe(pid) })
 			subscribed[i] = false
 		case 2: // broadcast
+			if zzrt.Param("X") == 1 && zzrt.NondetBool("lifecycleEventFirst") {
+				// an engine lifecycle event that names a subscriber's PID (a predecessor under the same id stopped
+				// earlier and its event arrives now) is an event like any other: it changes nobody's subscription
+				i := zzrt.Choose(S)
+				guard(func() { e.BroadcastEvent(ActorStoppedEvent{PID: NewPID(subs[i].Pid.Address, subs[i].Pid.ID)}) })
+				guard(drain)
+				zzrt.Reach("lifecycle-event-naming-a-subscriber")
+			}
 			evN++
 			for i := range subs {
 				if subscribed[i] && alive[i] {
@@ -131,6 +142,20 @@ func ZZ_ES() {
 			}
 			guard(func() { e.BroadcastEvent(zzEvt{evN}) })
 		case 3: // send to a PID nobody answers to
+			if prop == 12 {
+				// Unsubscribe for a PID that is NOT one of the subscribers (address and id are symbolic strings, the
+				// split between them is chosen, only being equal to a subscriber's PID is excluded): nobody's
+				// subscription may be affected
+				total := len(subs[0].Pid.Address) + len(subs[0].Pid.ID)
+				k := zzrt.Choose(total-1) + 1
+				other := NewPID(zzrt.NondetString("otherAddr", k), zzrt.NondetString("otherID", total-k))
+				for i := range subs {
+					zzrt.Assume(!(other.Address == subs[i].Pid.Address && other.ID == subs[i].Pid.ID))
+				}
+				guard(func() { e.Unsubscribe(other) })
+				zzrt.Reach("unsubscribe-of-another-pid")
+				break
+			}
 			evN++
 			var snd *PID
 			if zzrt.NondetBool("withSender") {
